@@ -49,6 +49,7 @@ def family(tier, seed):
          "extents": {"K": 2, "M": 4, "N": 3}, "tags": {"legal": True}},
     ]
     jobs += [(dict(s, sizes={}), False) for s in extra]
+    jobs += [(dict(s, tags=dict(s["tags"], legal=True)), False) for s in oc if (s.get("tags") or {}).get("core")]
     for s in integ.integration_specs(metrics_only=True):
         jobs.append((s, False))
         jobs.append((s, True))
